@@ -33,8 +33,7 @@ def plan(tier, seed):
     nmax = 4 if tier == 'quick' else 5
     chunks = [{'kind': 'api', 'n': n, 'mod': m, 'rem': r} for n, m in ((2, 1), (3, 2), (4, 16), (5, 64))
               if n <= nmax for r in range(m)]
-    if nmax < 5:
-        chunks.append({'kind': 'api-extra', 'n': 5, 'mod': 1, 'rem': 0})
+    chunks.append({'kind': 'api-extra', 'n': 5, 'mod': 1, 'rem': 0})
     chunks += [{'kind': 'api-pairs', 'n': 3 if tier == 'quick' else 4, 'mod': 4, 'rem': r} for r in range(4)]
     chunks += [{'kind': 'cli', 'mod': 8, 'rem': r, 'n': 3 if tier == 'quick' else 4} for r in range(8)]
     return {
@@ -460,6 +459,16 @@ def extra_banks():
             for i, tk in enumerate(mt.toks):
                 tk['word'] = WORDS[(i + 3 * k) % len(WORDS)]
             yield [mt]
+    # start symbols: a root label that also occurs below itself (and nowhere else) is not a start symbol;
+    # the same root rule in several trees
+    T = model.mk_tokens
+    a = model.MT(1, T(3, words=['w', 'Haus', 'USA'], pos=['x', 'y', 'x']), ('VROOT', '--', (('B', '--', (1, 2)), 3)))
+    b = model.MT(2, T(3, words=['w', 'Haus', 'w'], pos=['x', 'y', 'x']), ('A', '--', (('A', '--', (1, 2)), 3)))
+    c = model.MT(3, T(3, words=['eMail', 'w', 'w'], pos=['x', 'y', 'x']), ('VROOT', '--', (('B', '--', (1, 2)), 3)))
+    d = model.MT(4, T(2, words=['w', 'w'], pos=['x', 'y']), ('A', '--', (1, 2)))
+    yield [a, b, c]
+    yield [b, d]
+    yield [a, c, a]
 
 
 def run_chunk(chunk):
